@@ -781,3 +781,106 @@ def gen_UnitsText(repo):
     L.append("def unitsEqTests : List String := %s" % lean_list([lean_str(k) for k in eq_tests]))
     L.append("\nend Strengths.Gen")
     return "\n".join(L) + "\n"
+
+
+# =============================================================================================
+# UnitsOps : operator wiring of UnitValue / UnitArray (C05) — normalised source text, no evaluation
+# =============================================================================================
+@group
+def gen_UnitsOps(repo):
+    units = PySrc(repo, "src/strengths/units.py")
+
+    def norm(node):
+        txt = re.sub(r"\s+", "", units.seg(node))
+        return re.sub(r"\"[^\"]*\"|'[^']*'", '""', txt)
+
+    def stmt(s):
+        if isinstance(s, ast.Expr) and isinstance(s.value, ast.Constant) and isinstance(s.value.value, str):
+            return None   # docstring
+        if isinstance(s, ast.Return):
+            return "return " + (norm(s.value) if s.value is not None else "")
+        if isinstance(s, ast.Raise):
+            e = s.exc
+            name = e.func.id if isinstance(e, ast.Call) and isinstance(e.func, ast.Name) else (e.id if isinstance(e, ast.Name) else None)
+            if name is None:
+                raise AnchorLost("units.py: raise of an unexpected form: " + units.seg(s)[:60])
+            return "raise " + name
+        if isinstance(s, ast.If):
+            out = "if " + norm(s.test) + ":{" + body(s.body) + "}"
+            if s.orelse:
+                out += "else:{" + body(s.orelse) + "}"
+            return out
+        if isinstance(s, (ast.Assign, ast.AugAssign)):
+            return norm(s)
+        if isinstance(s, ast.For):
+            return "for " + norm(s.target) + " in " + norm(s.iter) + ":{" + body(s.body) + "}"
+        raise AnchorLost("units.py: statement outside the normalised subset: " + units.seg(s)[:60])
+
+    def body(stmts):
+        return ";".join(x for x in (stmt(s) for s in stmts) if x is not None)
+
+    def branches(fn):
+        """the top-level if/elif/else chain of a method: [(test, body)]; other statements: ("", stmt)"""
+        out = []
+        for s in fn.body:
+            if isinstance(s, ast.If):
+                node = s
+                while True:
+                    out.append((norm(node.test), body(node.body)))
+                    if len(node.orelse) == 1 and isinstance(node.orelse[0], ast.If):
+                        node = node.orelse[0]
+                    else:
+                        if node.orelse:
+                            out.append(("else", body(node.orelse)))
+                        break
+            else:
+                t = stmt(s)
+                if t is not None:
+                    out.append(("", t))
+        if not out:
+            raise AnchorLost("units.py:%s has no statements" % fn.name)
+        return out
+
+    def table(name, rows):
+        return "def %s : List (String × String) := %s" % (
+            name, lean_list(["(%s, %s)" % (lean_str(a), lean_str(b)) for a, b in rows]))
+
+    L = ["namespace Strengths.Gen\n"]
+    dunders = ["__add__", "__radd__", "__sub__", "__rsub__", "__mul__", "__rmul__", "__truediv__", "__rtruediv__",
+               "__mod__", "__rmod__", "__neg__", "__abs__", "invert"]
+    for cls, pre in (("UnitValue", "uval"), ("UnitArray", "uarr")):
+        rows = []
+        for m in dunders:
+            fn = units.func(m, cls=cls)
+            b = branches(fn)
+            if len(b) != 1 or b[0][0] != "" or not b[0][1].startswith("return "):
+                raise AnchorLost("units.py:%s.%s is not a single return" % (cls, m))
+            rows.append((m, b[0][1][len("return "):]))
+        L.append("/-- `%s`: the return expression of every operator method (whitespace removed) -/" % cls)
+        L.append(table(pre + "Wiring", rows))
+        for m in ("_sum", "_product", "_modulo", "_rmodulo"):
+            L.append("/-- `%s.%s`: (test, normalised body) per branch -/" % (cls, m))
+            L.append(table(pre + m, branches(units.func(m, cls=cls))))
+        for m in ("__pow__", "__rpow__"):
+            L.append(table(pre + m.strip("_").capitalize(), branches(units.func(m, cls=cls))))
+        # comparison methods the class defines (Python derives `!=` from `__eq__` only when `__ne__` is absent)
+        cdef = None
+        for n in units.tree.body:
+            if isinstance(n, ast.ClassDef) and n.name == cls:
+                cdef = n
+        names = [f.name for f in cdef.body if isinstance(f, ast.FunctionDef)
+                 and f.name in ("__eq__", "__ne__", "__neq__", "__gt__", "__ge__", "__lt__", "__le__")]
+        L.append("def %sCmpMethods : List String := %s" % (pre, lean_list([lean_str(x) for x in names])))
+        L.append("")
+    for m in ("__eq__", "__gt__", "__ge__", "__lt__", "__le__"):
+        L.append("/-- `UnitValue.%s` -/" % m)
+        L.append(table("uvalCmp_" + m.strip("_"), branches(units.func(m, cls="UnitValue"))))
+    L.append("")
+    for m in ("invert", "multiply", "raiseto"):
+        L.append("/-- `Units.%s` -/" % m)
+        L.append(table("units_" + m, branches(units.func(m, cls="Units"))))
+    for m in ("_neg", "_inv"):
+        L.append("/-- module function `%s` -/" % m)
+        L.append(table("fn" + m, branches(units.func(m))))
+    L.append("\nend Strengths.Gen")
+    return "\n".join(L) + "\n"
